@@ -92,3 +92,36 @@ def wlog_two_centre(M, pfx=""):
     A = P + AB * (b / (a + b))
     B = P - AB * (a / (a + b))
     return P, AB, a, b, M.array(A), M.array(B)
+
+
+class PathLog:
+    """call log of a body that M.paths runs once per feasible path.  begin() opens the log of one run; the object
+    reads like the list of the LAST run (len, index, iteration); every(pred) holds when pred(log) holds for the log
+    of EVERY run - a callee precondition must hold on each path, not only on the one explored last."""
+
+    def __init__(self):
+        self.runs = [[]]
+        self.started = False
+
+    def begin(self):
+        if self.started:
+            self.runs.append([])
+        self.started = True
+
+    def append(self, x):
+        self.runs[-1].append(x)
+
+    def every(self, pred):
+        return all(pred(r) for r in self.runs)
+
+    def __len__(self):
+        return len(self.runs[-1])
+
+    def __getitem__(self, i):
+        return self.runs[-1][i]
+
+    def __iter__(self):
+        return iter(self.runs[-1])
+
+    def __bool__(self):
+        return bool(self.runs[-1])
